@@ -96,7 +96,8 @@ def generate(seed, idx, tier):
         'knobs': knobs, 'shape': shape, 'prefix': ops, 'append': app,
         'profile': rng.choice(('posix', 'objstore')),
         'both_profiles': not quick,
-        'kinds': ['eio', 'enospc_partial', 'eio_close', 'crash', 'eio_read'],
+        'kinds': ['eio', 'enospc_partial', 'eio_close', 'crash', 'eio_read',
+                  'interrupt'],
         'double_frac': 0.34,
         'n_resolutions': 1 if quick else 3,
         'after_meta': 'sample',
@@ -405,6 +406,11 @@ def execute(case):
                 run_append(fs, case, parts, df.copy())
             except SimCrash as e:
                 outcome, err = 'crashed', e
+            except KeyboardInterrupt as e:
+                # the injected cancellation (the process lives on)
+                if not fs.fired:
+                    raise
+                outcome, err = 'raised', e
             except Exception as e:
                 outcome, err = 'raised', e
             fired = list(fs.fired)
